@@ -94,3 +94,19 @@ package filesystem
 //@   props C18
 //@   safety
 //@   ensures poison-is-private: fname == PoisonKeyFilename && !ret(isHistoricalFilename)[0] ==> b
+
+// Listing of rotated keys (C06): inside every history directory the j-th file (in directory order, from 0) is listed
+// with index j+2 — the numbering destroyRotatedKeyByIndex resolves with files[index-2] of the same directory.
+//@ func (store *KeyStore) describeOldDir(dirName string) (keys []keystore.KeyDescription, err error)
+//@   props C06
+//@   noinline *
+//@   loop 1 invariant rotatedKeyIdx == $n + 2
+//@          step listed-index-is-position-plus-two: keys[len(keys)-1].Index == $n + 1 && keys[len(keys)-1].State == keystore.StateRotated
+//@   ensures err != nil ==> keys == nil
+
+// Current keys are always listed with the virtual index 1.
+//@ func (store *KeyStore) describeDir(dirName string) (keys []keystore.KeyDescription, err error)
+//@   props C06
+//@   noinline *
+//@   loop 0 step current-key-index-one: len(keys) == len(prev(keys)) + 1 && !itercalled(KeyStore.describeDir) ==> keys[len(keys)-1].Index == 1 && keys[len(keys)-1].State == keystore.StateCurrent
+//@   ensures err != nil ==> keys == nil
